@@ -188,7 +188,7 @@ def run_check(prop, tier, seed, workdir, t_start, jobs):
                 problems.append(f'theorem {n} uses inadmissible axioms {ax}')
             else:
                 discharged += 1
-        hits = common.source_scan()
+        hits = common.source_scan([t for t in targets if t != 'driver'])
         if hits:
             problems.append('forbidden constructs in Lean sources: ' + '; '.join(hits[:10]))
     # 4. correspondence
